@@ -21,17 +21,34 @@ type Event struct {
 	Data []byte
 }
 
+// maxData bounds the bytes kept per event and maxEvents the events kept
+// between two drains, so that a runaway caller cannot exhaust memory through
+// the monitor. N always holds the true number of bytes delivered.
+const (
+	maxData   = 256
+	maxEvents = 4096
+)
+
 // Recorder wraps the original crypto/rand.Reader.
 type Recorder struct {
-	mu  sync.Mutex
-	r   io.Reader
-	log []Event
+	mu      sync.Mutex
+	r       io.Reader
+	log     []Event
+	Dropped int
 }
 
 func (w *Recorder) Read(p []byte) (int, error) {
 	n, err := w.r.Read(p)
 	w.mu.Lock()
-	w.log = append(w.log, Event{Req: len(p), N: n, Err: err, Data: append([]byte(nil), p[:n]...)})
+	if len(w.log) < maxEvents {
+		keep := n
+		if keep > maxData {
+			keep = maxData
+		}
+		w.log = append(w.log, Event{Req: len(p), N: n, Err: err, Data: append([]byte(nil), p[:keep]...)})
+	} else {
+		w.Dropped++
+	}
 	w.mu.Unlock()
 	return n, err
 }
